@@ -255,8 +255,10 @@ type vhAliasStackS Stack  // alias with its own String method
 type vhAliasCond Condition
 type vhAliasCondS Condition
 
-func (r vhAliasStackS) String() string { return Stack(r).String() }
-func (r vhAliasCondS) String() string  { return Condition(r).String() }
+// The aliases' own String methods deliberately differ from the native
+// rendering: an alias must be treated as the native value it converts to.
+func (r vhAliasStackS) String() string { return "<<alias stack stringer>>" }
+func (r vhAliasCondS) String() string  { return "<<alias condition stringer>>" }
 
 // vhStackOf returns the native Stack behind a value the harness created, and
 // whether the value is a Stack / Stack alias / non-nil pointer to one.
